@@ -17,6 +17,8 @@ REPO = os.environ.get("VERIF_REPO", "/repo")
 SPEC = os.path.join(VERIF, "spec")
 HARNESS = os.path.join(VERIF, "harness")
 NCPU = os.cpu_count() or 4
+# Mutation testing of the machinery (tools/try_mutants.sh) must not clobber the real evidence/replay files
+OUTDIR = VERIF if not os.environ.get("VERIF_SCRATCH_EVIDENCE") else tempfile.mkdtemp(prefix="vf-mut-out-")
 
 
 class Infra(Exception):
@@ -86,6 +88,16 @@ class Ctx:
         self.sync_harness()
         out = os.path.join(self.scratch, key)
         cmd = ["go", "build", "-tags", "verif", "-o", out]
+        if REPO != "/repo":
+            # mutation testing of the machinery itself: build against another checkout (VERIF_REPO)
+            # through an alternative go.mod; registered commands always use /repo.
+            with open(os.path.join(HARNESS, "go.mod")) as f:
+                gm = f.read().replace("=> /repo", "=> " + REPO).replace("=> ./fakehdf5", "=> " + os.path.join(HARNESS, "fakehdf5"))
+            alt = os.path.join(self.scratch, "alt.mod")
+            with open(alt, "w") as f:
+                f.write(gm)
+            shutil.copy(os.path.join(REPO, "go.sum"), os.path.join(self.scratch, "alt.sum"))
+            cmd += ["-modfile", alt]
         if race:
             cmd.append("-race")
         cmd.append("./cmd/vh")
@@ -171,7 +183,7 @@ class Ctx:
             if all(str(sig.get(a)) == str(b) for a, b in m.items()):
                 self.known_hits.append((k, detail))
                 return
-        rp = os.path.join(VERIF, "replay", self.prop)
+        rp = os.path.join(OUTDIR, "replay", self.prop)
         os.makedirs(rp, exist_ok=True)
         path = os.path.join(rp, "case-%d.json" % (len(self.violations) + 1))
         if len(self.violations) < 20:
@@ -185,8 +197,8 @@ class Ctx:
             self.cov["samples"].append(obj)
 
     def finish(self, level, technique_note=None):
-        if os.path.isdir(os.path.join(VERIF, "replay", self.prop)) and not self.violations:
-            shutil.rmtree(os.path.join(VERIF, "replay", self.prop), ignore_errors=True)
+        if os.path.isdir(os.path.join(OUTDIR, "replay", self.prop)) and not self.violations:
+            shutil.rmtree(os.path.join(OUTDIR, "replay", self.prop), ignore_errors=True)
         seen = set()
         for k, detail in self.known_hits:
             kid = k.get("id")
@@ -211,8 +223,8 @@ class Ctx:
             "coverage": cov, "assumptions": self.assumptions,
             "wall_s": round(time.time() - self.t0, 2), "violations": len(self.violations),
         }
-        os.makedirs(os.path.join(VERIF, "evidence"), exist_ok=True)
-        with open(os.path.join(VERIF, "evidence", self.prop + ".json"), "w") as f:
+        os.makedirs(os.path.join(OUTDIR, "evidence"), exist_ok=True)
+        with open(os.path.join(OUTDIR, "evidence", self.prop + ".json"), "w") as f:
             json.dump(ev, f, indent=1, default=str)
         print("%s %s: evaluations=%d distinct=%d states=%d traces=%d violations=%d known=%d wall=%.1fs" % (
             self.prop, self.tier, cov["evaluations"], cov["distinct_nontrivial"], cov["states"],
